@@ -466,11 +466,22 @@ Qed.
 
 Example ex_ops_ok : ops_ok nat Nat.ltb (heap_empty nat) ex_ops.
 Proof.
-  unfold ex_ops. cbn [ops_ok]. repeat split; try exact ex_rhs_hinv;
-    try (vm_compute; intuition (try lia; try congruence)).
+  unfold ex_ops. cbn [ops_ok op_ok].
+  repeat match goal with
+  | |- hinv _ _ _ => exact ex_rhs_hinv
+  | |- True => exact I
+  | |- _ /\ _ => split
+  | |- ~ In _ _ => vm_compute; intuition congruence
+  | |- In _ _ => vm_compute; tauto
+  | |- forall old, In (_, old) _ -> _ =>
+      let H := fresh in intros old H; vm_compute in H; decompose [or] H; clear H; try contradiction; try discriminate;
+      match goal with H0 : (_, _) = (_, _) |- _ => injection H0 as <- end; reflexivity
+  | |- forall i, In i _ -> ~ In i _ =>
+      let H := fresh in let H' := fresh in intros i H H'; vm_compute in H, H'; intuition (subst; try discriminate; try lia)
+  end.
 Qed.
 
 Example ex_heap_min :
   find_min nat (run nat Nat.ltb (heap_empty nat) ex_ops) = Some 0 /\
-  map snd (elems nat (root nat (run nat Nat.ltb (heap_empty nat) ex_ops))) = [0; 4; 5; 8; 2; 7].
+  map snd (elems nat (root nat (run nat Nat.ltb (heap_empty nat) ex_ops))) = [0; 2; 7; 8; 4; 5].
 Proof. vm_compute. split; reflexivity. Qed.
